@@ -5,6 +5,7 @@ import YaclibModel.Proofs.CoMutexExec
 import YaclibModel.Proofs.StrandTowerInline
 import YaclibModel.Proofs.StrandTowerManual
 import YaclibModel.Proofs.PoolExecContract
+import YaclibModel.Proofs.PoolExecNoDrop
 
 namespace Yaclib.CoMutex
 open Yaclib.Strand (Exec XEv Prot Phase specPre specPost protInit ExecContract)
@@ -53,6 +54,27 @@ theorem comutex_over_pool {cfg : Cfg} {n : Nat} (hn : 0 < n) (stop : Option Yacl
     (hnd : NeverDrops (Yaclib.Pool.poolExec n stop spur)) {s : XState (Yaclib.Pool.poolExec n stop spur)}
     (h : XReach cfg (Yaclib.Pool.poolExec n stop spur) s) (hq : ∀ s', ¬ XStep _ s s') : QuiescentDone cfg s :=
   xmutex_quiescent_done (Yaclib.Pool.pool_contract hn stop spur) hnd h hq
+
+/-- `NeverDrops` quantifies over all states, reachable or not, and the pool model's step relation does not depend on its
+    `stop` parameter (only `init` does): from the unreachable state in which the stopper sits in HardStop's Drop loop a drop
+    step exists.  So `NeverDrops (poolExec n none spur)` is false as stated … -/
+theorem pool_none_neverDrops_false (n : Nat) (spur : Bool) : ¬ NeverDrops (Yaclib.Pool.poolExec n none spur) := by
+  intro h
+  let m0 : Yaclib.Pool.State := { Yaclib.Pool.init (Yaclib.Pool.wN n none 0) with xpc := .dropping [⟨0, 0⟩] }
+  have hs : Yaclib.Pool.Step (Yaclib.Pool.pad m0 0) (.drop .stopper ⟨0, 0⟩) _ := Yaclib.Pool.Step.xDrop _ ⟨0, 0⟩ [] rfl
+  exact h ⟨m0, []⟩ (.m (.drop .stopper ⟨0, 0⟩)) _ 0 (Yaclib.Pool.PStep.m 0 hs trivial (fun _ => rfl)) rfl
+
+/-- … while in every *reachable* state of the unstopped pool no Drop is possible (`Pool.unstopped_no_drop`), so the same
+    system with the unreachable drop steps removed from its step relation (`Pool.poolExecAlive`: same reachable states and
+    steps, `Pool.alive_reach_iff` / `Pool.alive_step_iff`) never Drops in the literal sense and honours the contract -/
+theorem pool_alive_neverDrops (n : Nat) (spur : Bool) : NeverDrops (Yaclib.Pool.poolExecAlive n spur) :=
+  Yaclib.Pool.alive_never_drops n spur
+
+/-- FairThreadPool with n ≥ 1 workers that nobody stops: no hypothesis left -/
+theorem comutex_over_pool_unstopped {cfg : Cfg} {n : Nat} (hn : 0 < n) (spur : Bool)
+    {s : XState (Yaclib.Pool.poolExecAlive n spur)} (h : XReach cfg (Yaclib.Pool.poolExecAlive n spur) s)
+    (hq : ∀ s', ¬ XStep _ s s') : QuiescentDone cfg s :=
+  xmutex_quiescent_done (Yaclib.Pool.alive_contract hn spur) (pool_alive_neverDrops n spur) h hq
 
 /-- a tower of k Strands over any contract-honouring base -/
 theorem comutex_over_strand_tower {cfg : Cfg} {base : Exec} (hb : ExecContract base) (k : Nat)
